@@ -238,11 +238,15 @@ def items_refused_clauses(view_of):
 
 def post_bool_property(expected_of):
     def post(S, o):
+        eng = S.eng
+        q = eng.src.mro_lookup(eng.mod, eng.cls, eng.fn.name) if eng.cls else None
+        # `ds.indexable` / `ds.ordered` are read as attributes: the function must be a property in the current source
+        prop = [('flag:is-a-property-in-the-current-source', z3.BoolVal(bool(q and eng.src.is_property(q))))]
         if o.kind == 'return' and isinstance(o.value, BoolV):
-            return [('flag:value', o.value.t == expected_of(S))]
+            return prop + [('flag:value', o.value.t == expected_of(S))]
         if o.kind == 'raise':
-            return [('flag:no-exception', smt.F)]
-        return [('flag:returns-bool', smt.F)]
+            return prop + [('flag:no-exception', smt.F)]
+        return prop + [('flag:returns-bool', smt.F)]
     return post
 
 
